@@ -163,7 +163,7 @@ PROPS = {
     "C07": {
         "level": "proof",
         "claim": "Lean 4 theorems over byte-level models of strings.Split / Join / HasPrefix and filepath.Clean: a path that passes the containment test of the loot code has the directory's cleaned components as a COMPONENT-WISE prefix, for every name (insideDir_components, by induction over components; the old string-prefix test provably accepts a sibling directory); every download DownloadAdd opens lies below the agent's Download directory; accepted agent ids are single path components; chunks for unknown ids are written nowhere; a file written through one handle equals the concatenation of its chunks. Correspondence: the real TaskDispatch download callbacks (both protocols) and the five logr writers with crafted names / ids on a temp loot tree; the tree two levels above the loot root is diffed after every operation and compared with the model file system; containment and content clauses are evaluated on the observed tree.",
-        "note": "Trusted: Lean kernel (propext/Classical.choice/Quot.sound), harness + driver; the OS resolves `..` lexically (no symlinks in the loot tree: agents cannot create them); PNG conversion of screenshots not modelled. Known finding (open): overlapping transfers to one local file.",
+        "note": "Trusted: Lean kernel (propext/Classical.choice/Quot.sound), harness + driver; path resolution is modelled component-wise as the OS does it for a tree without symlinks (agents cannot create them): every walked component must exist, a NUL byte is refused; PNG conversion of screenshots not modelled. Known finding (open): overlapping transfers to one local file.",
         "technique": "Lean 4 proof (component-wise containment from a string-prefix test, append-only handle semantics) + correspondence against the real file system",
         "gen": ["Consts"],
         "n": {"quick": 6000, "thorough": 120000},
@@ -193,7 +193,7 @@ PROPS = {
         "level": "proof",
         "timing": True,
         "claim": "Lean 4 theorems over a model of (*HTTP).request: admit_iff states the decision logic outright (POST, URI list incl. the [\"\"] case, User-Agent, every configured non-ignored header with its full value, case-insensitively); non-POST never reaches the protocol; header values / response header values are split once, so values containing ': ' / ':' are whole; the recorded address is the peer host unless the redirector flag is set. Correspondence: REAL listeners started with (*HTTP).Start on loopback (IPv4 and IPv6 peers), real HTTP requests over TCP carrying a valid registration, so reaching the protocol is observed as a new session with its ExternalIP; status / decoy class / response headers compared with the model and judged by the Spec.",
-        "note": "Trusted: Lean kernel (propext/Classical.choice/Quot.sound), harness + driver, Go net/http + gin (header canonicalisation, first-value Get, malformed request lines answered 400 by net/http before the listener sees them). ListenerEdit at run time is exercised under C16.",
+        "note": "Trusted: Lean kernel (propext/Classical.choice/Quot.sound), harness + driver, Go net/http + gin (header canonicalisation, first-value Get, malformed request lines answered 400 by net/http before the listener sees them). ListenerStart / ListenerEdit through a real Teamserver are exercised by the `viaserver` operation and under C16.",
         "technique": "Lean 4 proof (decision logic stated outright) + correspondence against real listeners over TCP",
         "gen": ["Consts"],
         "n": {"quick": 3000, "thorough": 40000},
